@@ -14,8 +14,13 @@ Clauses(e, lrn, lf, ph, st) ==
   \cup If(e.head > lrn, "C03_store_never_ahead_of_verified_heads")
   \cup If(e.e = "gossip" /\ e.kind = "valid" /\ e.res # "nil", "C07_valid_network_head_is_learned")
   \cup If(e.headRet > lrn, "C03_Head_never_returns_an_unverified_header")
-  \cup If(~e.waiting /\ ~lf /\ ~e.free /\ ~(e.head = lrn /\ ~e.stateErr /\ e.finished /\ e.syncWait = "nil"), "C07_store_reaches_every_learned_target_State_finished_SyncWait_returns")
-  \cup If(e.e = "serve" /\ e.kind \in {"error", "empty", "nonadjacent"} /\ e.served /\ ~e.stateErr, "C07_getter_error_is_reported_by_State")
+  \* (on real threads only after the deliveries have been collected: at the serve events)
+  \cup If(~e.waiting /\ ~lf /\ ~e.free /\ (~e.rt \/ e.e = "serve") /\ ~(e.head = lrn /\ ~e.stateErr /\ e.finished /\ e.syncWait = "nil"), "C07_store_reaches_every_learned_target_State_finished_SyncWait_returns")
+  \cup If(e.e = "serve" /\ e.kind \in {"error", "empty", "nonadjacent", "cancelWrapped"} /\ e.served /\ ~e.stateErr, "C07_getter_error_is_reported_by_State")
+  \* e.h concurrent deliveries of different valid heads (each verifiable from the previous one): all of them are accepted
+  \cup If(e.e = "collectAll" /\ e.dupNil < e.h, "C07_valid_network_head_is_learned")
+  \cup If(e.e = "collectAll" /\ e.dupNil < e.h, "C15_candidate_with_verifiable_path_accepted")
+  \cup If(e.e = "collectAll" /\ e.res = "blocked", "C03_delivery_terminates")
   \cup If(e.head < ph, "C07_nothing_partial_is_lost")
   \cup If(~e.waiting /\ ~e.rt /\ e.head < st, "C07_nothing_partial_is_lost")  \* every header the getter served is in the store once the attempt is over
                                                                               \* (not on real threads: "the attempt is over" is not observable there)
@@ -38,6 +43,7 @@ Next ==
                  \* a Head() call was answered with a verified newer head (e.h): learned, whatever Head() itself returns
                  ELSE IF e.e = "headRelease" /\ e.kind = "fresh" /\ e.h > lrn0 THEN e.h ELSE lrn0
          lf1 == IF e.e = "gossip" /\ e.kind = "valid" /\ e.res = "nil" THEN FALSE
+                ELSE IF e.e = "gossipAsync" /\ e.kind = "valid" THEN FALSE
                 ELSE IF e.e = "serve" /\ e.kind # "ok" /\ e.served THEN TRUE ELSE lf0
          st0 == IF fresh THEN 1 ELSE servedTo
          pf == IF fresh THEN 0 ELSE prevFrom
